@@ -87,6 +87,9 @@ where
     const LINE_FEED: u8 = b'\n';
     const CARRIAGE_RETURN: u8 = b'\r';
 
+    // The field is appended to `dst`, which holds the previous fields of the line.
+    let start = dst.len();
+
     let mut r#match = None;
     let mut len = 0;
 
@@ -116,7 +119,8 @@ where
 
     let is_eol = matches!(r#match, Some(LINE_FEED));
 
-    if is_eol && dst.ends_with(&[CARRIAGE_RETURN]) {
+    // Only a carriage return that belongs to this (the last) field is part of the line terminator.
+    if is_eol && dst[start..].ends_with(&[CARRIAGE_RETURN]) {
         dst.pop();
     }
 
